@@ -2,7 +2,7 @@
    Property theorems only; proofs live in Bac.PrimInt / PrimBits / PrimFacts / PrimFloat.
    The model (Bac.Prim) is the repaired code: Integer.encode refuses values outside 32 bits
    ("fix: Integer.encode refuses ...") and SecurityLevel is a bijection ("fix: SecurityLevel ..."). *)
-From Bac Require Import Base Tag TagFacts Prim PrimTables PrimInt PrimBits PrimFacts PrimFloat PrimObj PrimObjFacts.
+From Bac Require Import Base Tag TagFacts Prim PrimTables PrimInt PrimBits PrimFacts PrimFloat PrimObj PrimObjFacts PrimDispatch PrimDispatchFacts.
 Open Scope N_scope.
 
 (* ---- round trip, application tagging: whatever encode(tag) produces, decode(tag) of the same class
@@ -192,6 +192,52 @@ Theorem C01_bitstring_exact_length : forall tb l t, enc_app tb (PBits l) = Ok t 
 Proof. exact bitstring_exact. Qed.
 Print Assumptions C01_bitstring_exact_length.
 
+(* ---- Tag.app_to_object: the generic receiver, which picks the class from the tag NUMBER (model PrimDispatch).
+   What an object of one of the thirteen base classes encodes comes back as the same value; base_table = the empty
+   translate table for Enumerated, the stock object-type table for ObjectIdentifier. *)
+Theorem C01_app_to_object_roundtrip : forall otb v t,
+  enum_bijective otb = true -> prim_ok (base_table otb (kind v)) v ->
+  enc_app (base_table otb (kind v)) v = Ok t -> app_to_object otb t = Ok (Some v).
+Proof. exact app_to_object_roundtrip. Qed.
+Print Assumptions C01_app_to_object_roundtrip.
+
+(* every tag, not only produced ones: an object is built only for an application tag numbered 0..12 and is then of
+   exactly the class that number names, decoded by that class's own decoder; 13..15 give no object; any other
+   class / number is refused — no tag is ever answered with an object of another class *)
+Theorem C01_app_to_object_class : forall otb t,
+  match app_to_object otb t with
+  | Ok (Some v) => cls t = 0 /\ num t < 13 /\ kind v = num t /\ dec_app (base_table otb (num t)) (num t) t = Ok v
+  | Ok None => cls t = 0 /\ 13 <= num t < 16
+  | Err e => cls t <> 0 \/ 16 <= num t \/ (num t < 13 /\ dec_app (base_table otb (num t)) (num t) t = Err e)
+  end.
+Proof. exact app_to_object_class. Qed.
+Print Assumptions C01_app_to_object_class.
+
+(* subclass values through the generic receiver: the number on the wire is the number the name stands for *)
+Theorem C01_app_to_object_enum_number : forall tb otb e t,
+  enum_bijective tb = true -> valid_eval tb e -> enc_app tb (PEnum e) = Ok t ->
+  exists n, n < 4294967296 /\ eval_num tb e = Ok (Z.of_N n) /\
+            app_to_object otb t = Ok (Some (PEnum (ENum (Z.of_N n)))).
+Proof. exact app_to_object_enum_number. Qed.
+Print Assumptions C01_app_to_object_enum_number.
+
+Theorem C01_app_to_object_objid_number : forall tb otb ty i t,
+  enum_bijective tb = true -> valid_eval tb ty -> (0 <= i <= 4194303)%Z ->
+  enc_app tb (PObjId ty i) = Ok t ->
+  exists tn, tn < 1024 /\ objid_word tb ty i = Ok (Z.of_N tn * 4194304 + i)%Z /\
+             app_to_object otb t = Ok (Some (PObjId (eval_of_num otb tn) i)).
+Proof. exact app_to_object_objid_number. Qed.
+Print Assumptions C01_app_to_object_objid_number.
+
+(* down to the octets (with C02's tag round trip) *)
+Theorem C01_wire_to_object_roundtrip : forall otb v t bs rest,
+  enum_bijective otb = true -> prim_ok (base_table otb (kind v)) v ->
+  enc_app (base_table otb (kind v)) v = Ok t -> bytes_ok (data t) = true -> lvt t < 4294967296 ->
+  enc_tag t = Ok bs ->
+  wire_to_object otb (bs ++ rest) = Ok (Some v, rest).
+Proof. exact wire_to_object_roundtrip. Qed.
+Print Assumptions C01_wire_to_object_roundtrip.
+
 (* ---- non-vacuity: the hypotheses are satisfiable and the conclusions are about real encodings *)
 Example C01_ex_values :
   map (enc_octets_app E_basetypes_SecurityLevel)
@@ -247,3 +293,14 @@ Proof. vm_compute. repeat split. Qed.
 Example C01_ex_short_bits :
   dec_octets_app [] 8 [129; 0] = Ok (PBits [], []) /\ dec_octets_app [] 8 [130; 6; 64] = Ok (PBits [false; true], []).
 Proof. vm_compute. split; reflexivity. Qed.
+(* the generic receiver: device:5 from its octets with one octet left over; a SecurityLevel name arrives as its number;
+   a vendor object type arrives as the bare number; slots 13..15 give no object; 16 and a context tag are refused *)
+Example C01_ex_app_to_object :
+  wire_to_object objid_type_table [196; 2; 0; 0; 5; 99] = Ok (Some (PObjId (EName "device") 5), [99]) /\
+  (do t <- enc_app E_basetypes_SecurityLevel (PEnum (EName "encryptedEndToEnd")); app_to_object objid_type_table t)
+    = Ok (Some (PEnum (ENum 5))) /\
+  (do t <- enc_app (("vendorMeter", 128) :: objid_type_table) (PObjId (EName "vendorMeter") 2); app_to_object objid_type_table t)
+    = Ok (Some (PObjId (ENum 128) 2)) /\
+  app_to_object [] (mkTag 0 13 0 []) = Ok None /\ app_to_object [] (mkTag 0 16 0 []) = Err IndexErr /\
+  app_to_object [] (mkTag 1 2 1 [3]) = Err ValueErr /\ app_to_object [] (mkTag 0 2 0 []) = Err InvalidTag.
+Proof. vm_compute. repeat split. Qed.
